@@ -642,6 +642,9 @@ pub enum ReplyKind {
     /// answers Ok but names an instrument the manager's map does not know (the manager filters
     /// such a response by design)
     OkUnknownInstrument,
+    /// rejected by the venue with `ApiError::AssetInvalid` naming an asset that is not configured (the
+    /// key is echoed correctly; "invalid asset" is exactly what a venue says about a name it does not know)
+    ErrUnconfiguredAsset,
 }
 
 #[derive(Debug, Clone, Copy, PartialEq, Eq)]
@@ -739,6 +742,7 @@ impl ExecutionClient for ScriptClient {
             state: match kind {
                 ReplyKind::Ok | ReplyKind::OkFullyFilled | ReplyKind::OkUnknownInstrument => Ok(Cancelled { id: OrderId::new(format!("x-{}", call.cid.0)), time_exchange: t(1) }),
                 ReplyKind::Err => Err(UnindexedOrderError::Rejected(ApiError::OrderAlreadyCancelled)),
+                ReplyKind::ErrUnconfiguredAsset => Err(UnindexedOrderError::Rejected(ApiError::AssetInvalid(AssetNameExchange::from("NOT-CONFIGURED"), "scripted".into()))),
             },
         }
     }
@@ -777,6 +781,7 @@ impl ExecutionClient for ScriptClient {
                 ReplyKind::Ok | ReplyKind::OkUnknownInstrument => Ok(Open { id: OrderId::new(format!("x-{}", call.cid.0)), time_exchange: t(1), filled_quantity: Decimal::ZERO }),
                 ReplyKind::OkFullyFilled => Ok(Open { id: OrderId::new(format!("x-{}", call.cid.0)), time_exchange: t(1), filled_quantity: state.quantity }),
                 ReplyKind::Err => Err(UnindexedOrderError::Rejected(ApiError::OrderRejected("scripted".into()))),
+                ReplyKind::ErrUnconfiguredAsset => Err(UnindexedOrderError::Rejected(ApiError::AssetInvalid(AssetNameExchange::from("NOT-CONFIGURED"), "scripted".into()))),
             },
         }
     }
